@@ -324,9 +324,10 @@ type runner struct {
 	// earlier buffer is no longer the cache's and the caller may reuse it: the
 	// harness overwrites it (the cache stores the slices it is given, and
 	// must hand out the latest one).
-	cur   map[string][]byte
-	pv    any
-	stack string
+	cur    map[string][]byte
+	curKey map[string][]byte // the same for the key buffers
+	pv     any
+	stack  string
 }
 
 func TestWorker(t *testing.T) {
@@ -397,16 +398,20 @@ func (r *runner) exec(o *opRec) {
 		r.frames = append(r.frames, o)
 		// The cache gets a buffer of its own (nil and empty stay what they
 		// are); the record keeps the content for the model and the log.
-		buf := bytes.Clone(o.val)
-		o.ret = r.c.Set(o.key, buf)
+		buf, kbuf := bytes.Clone(o.val), bytes.Clone(o.key)
+		o.ret = r.c.Set(kbuf, buf)
 		r.frames = r.frames[:len(r.frames)-1]
-		if old := r.cur[string(o.key)]; o.ret && len(old) > 0 {
-			for i := range old {
-				old[i] = '#'
+		if o.ret {
+			// The entry of the earlier Set is gone: its value and key buffers
+			// are the caller's again.
+			for _, old := range [][]byte{r.cur[string(o.key)], r.curKey[string(o.key)]} {
+				for i := range old {
+					old[i] = '#'
+				}
 			}
 			r.stats.Probe("replaced-buffer-reused-by-caller")
 		}
-		r.cur[string(o.key)] = buf
+		r.cur[string(o.key)], r.curKey[string(o.key)] = buf, kbuf
 		r.logf("Set(%q, %q) = %v (%d callbacks)", o.key, o.val, o.ret, len(o.cbs))
 		if len(o.cbs) > 0 {
 			r.stats.Probe("set-with-eviction")
@@ -470,7 +475,7 @@ func (r *runner) onDelete(key, val []byte) {
 
 func run(rc *kernel.RunCtx) {
 	tp := rc.Tape
-	r := &runner{tp: tp, stats: rc.Stats, keepLog: rc.KeepLog, sig: 14695981039346656037, cur: map[string][]byte{}}
+	r := &runner{tp: tp, stats: rc.Stats, keepLog: rc.KeepLog, sig: 14695981039346656037, cur: map[string][]byte{}, curKey: map[string][]byte{}}
 
 	conf := cache.Config{}
 	if tp.Bool(3, 4) {
